@@ -117,13 +117,19 @@ PROPS["C13"] = dict(
 )
 
 PROPS["C14"] = dict(
-    modules=["Proofs.C14", "Proofs.C14Bits", "Proofs.C14BitsFull", "Proofs.C14Map"],
+    modules=["Proofs.C14", "Proofs.C14Bits", "Proofs.C14BitsFull", "Proofs.C14Map", "Proofs.C14Compile", "Proofs.C14Compose"],
     theorems=["Goflow.C14.key_function", "Goflow.C14.no_key", "Goflow.C14.custom_varint_readback", "Goflow.C14.custom_bytes_readback",
               "Goflow.C14.mapCustom_varint", "Goflow.C14.getBytes_total", "Goflow.C14.extract_aligned", "Goflow.C14.getBytes_aligned",
               "Goflow.C14.getBytes_eq_extract_aligned", "Goflow.C14.getBytes_eq_extract", "Goflow.C14.toBits_shiftPass",
               "Goflow.C14Map.mapCustom_spec", "Goflow.C14Map.mapLayerEntries_spec", "Goflow.C14Map.mapLayerKeys_spec", "Goflow.C14Map.parseLoop_step",
               "Goflow.C14Map.element_mapping_spec", "Goflow.C14Map.convertFields_custom", "Goflow.C14Map.custom_record_spec",
-              "Goflow.C14Map.lookupNetflow_last", "Goflow.C14Map.effectOf_custom", "Goflow.C14Map.effectOf_numeric"],
+              "Goflow.C14Map.lookupNetflow_last", "Goflow.C14Map.effectOf_custom", "Goflow.C14Map.effectOf_numeric",
+              "Goflow.C14Compile.compile_eq", "Goflow.C14Compile.compile_ok_iff", "Goflow.C14Compile.accepted_iff", "Goflow.C14Compile.compile_netflow_entries",
+              "Goflow.C14Compile.compile_formatter", "Goflow.C14Compile.file_lookup_last", "Goflow.C14Compile.file_element_mapping",
+              "Goflow.C14Compile.file_element_unmapped", "Goflow.C14Compile.file_layer_entries",
+              "Goflow.C14Compose.runParser_unk", "Goflow.C14Compose.parsePacket_layers_commute", "Goflow.C14Compose.parsePacket_layers_sane",
+              "Goflow.C14Compose.parsePacket_unmatched", "Goflow.C14Compose.packetTrace_frame", "Goflow.C14Compose.full_capture_mapped",
+              "Goflow.C14Compose.full_capture_mapped_sane", "Goflow.C14Compose.full_capture_unmatched", "Goflow.C14Compose.file_full_capture"],
     generators=[dict(name="C14", quick=70, thorough=1260)],
     harness=["impl"],
     level_text="Theorems: getBytes_eq_extract (GetBytes = bit-list reference for every buffer, offset, length, mode), mapCustom_spec, mapLayerEntries_spec / mapLayerKeys_spec, element_mapping_spec, custom_record_spec, custom_varint_readback / custom_bytes_readback, key_function. PARTIAL: the compile step of the configuration and the whole-frame composition of layer mappings are tied by the differential run and the reference oracles (bit reference incl. exhaustive digests over all 1- and 2-byte buffers), not proved.",
